@@ -470,7 +470,8 @@ def jobs(tier):
 
 def all_jobs(tier):
     from . import extra_misc, mnode
-    return jobs(tier) + extra_misc.jobs_for('C03', tier) + mnode.jobs_for('C03', tier)
+    from . import c03red
+    return jobs(tier) + extra_misc.jobs_for('C03', tier) + mnode.jobs_for('C03', tier) + c03red.jobs(tier)
 
 
 def main(report, tier):
